@@ -141,9 +141,26 @@ func (c RawConfiguration) handleCorrectableCall(ctx context.Context, corr *Corre
 	)
 
 	if state.data.ServerStream {
+		// Servers may keep streaming after this call has completed. Until the routers are
+		// deleted (deferred calls run in reverse order: start draining, delete the routers,
+		// stop draining) the replies are consumed here, so that no receiver goroutine blocks
+		// on the full reply channel while holding its router mutex.
+		stopDraining := make(chan struct{})
+		defer close(stopDraining)
 		for _, n := range c {
 			defer n.channel.deleteRouter(state.md.MessageID)
 		}
+		defer func() {
+			go func() {
+				for {
+					select {
+					case <-state.replyChan:
+					case <-stopDraining:
+						return
+					}
+				}
+			}()
+		}()
 	}
 
 	if state.expectedReplies == 0 {
